@@ -1,3 +1,9 @@
+"""C05 finding F9 (DESIGN.md 6): _key_options/_cert_options are stored during validation of ANY public-key attempt,
+including the unsigned query, and never reset; a later password login runs with the forced command / no-pty /
+environment of a key nobody proved possession of.
+Failing obligation: C05.connection.SSHConnection._finish_userauth#pre-at-call(lookup_server_auth:
+restrictions-are-pristine-when-an-attempt-starts).  Proposed patch: c05_proposed_fix.diff (last hunk).
+"""
 import asyncio, asyncssh
 key = asyncssh.generate_private_key('ssh-ed25519')
 ak = asyncssh.import_authorized_keys('no-pty,command="/bin/restricted",environment="X=1" ' + key.export_public_key().decode())
